@@ -1,5 +1,6 @@
 import Jwt.Props.C16
 import Jwt.Lemmas.Ll
+import Jwt.Lemmas.JwksLoops
 /-!
 # C16, pointer level — the intrusive list of `ll.h` refines the abstract keyring
 
@@ -241,5 +242,62 @@ example : hrun demoItem 1 8 demoHeap [.add 10, .add 10] = none := by decide +ker
 -- a second list_del of the same node goes through NULL
 example : ((hrun demoItem 1 8 demoHeap [.add 10]).bind fun h => (list_del h 10).bind fun h => list_del h 10) = none := by
   decide +kernel
+
+/-! ## The same, for the functions as *translated* from `jwks.c`
+
+`Jwt/Generated/JwksLoops.lean` is regenerated from the C text on every run (`tie/loops.py`); the theorems
+below are the ones above, restated for the generated functions through the equalities of
+`Jwt/Lemmas/JwksLoops.lean`. They are what ties the pointer-level result to the code that is there. -/
+
+/-- `jwks_item_get`, `jwks_item_count`, `jwks_error_any` as translated: the item at `i` (NULL beyond the end), the
+number of keys, the set's flag plus the number of keys that failed to load. -/
+theorem C16_src_get_count_errany (s : HSet) (l : List Addr) (k : KeySet) (fuel i : Nat) (ha : Abs s l k) (hf : l.length < fuel) :
+    (Src.jwks_item_get s.heap s.head i fuel).map (·.map s.item) = some (k.get i) ∧
+    Src.jwks_item_count s.heap s.head fuel = some k.count ∧
+    Src.jwks_error_any s.heap s.view s.head (if k.error then 1 else 0) fuel = some k.errorAny := by
+  obtain ⟨h1, h2⟩ := C16_heap_get s l k fuel i ha hf
+  obtain ⟨il, hk⟩ := ha
+  refine ⟨by rw [src_get]; exact h1, by rw [src_count]; exact h2, ?_⟩
+  rw [src_error_any, walk_ok _ _ _ _ il hf]
+  simp [KeySet.errorAny, hk, List.filter_map, HSet.view, Function.comp_def]
+
+/-- `jwks_find_bykid` as translated -/
+theorem C16_src_find (s : HSet) (l : List Addr) (k : KeySet) (fuel : Nat) (kid : Bytes) (ha : Abs s l k) (hf : l.length < fuel) :
+    (Src.jwks_find_bykid s.heap s.view s.head kid fuel).map (·.map s.item) = some ((k.findByKid kid).bind k.get) := by
+  rw [src_find]; exact C16_heap_find s l k fuel kid ha hf
+
+/-- `jwks_item_add` as translated (after the allocation of the item) -/
+theorem C16_src_add (s : HSet) (l : List Addr) (k : KeySet) (a : Addr) (ha : Abs s l k) (ha0 : a ≠ 0) (hv : s.heap.valid a = false) :
+    ∃ h', (s.heap.alloc a).bind (fun h => Src.jwks_item_add h s.head a) = some (h', 0) ∧
+      Abs { s with heap := h' } (l ++ [a]) { k with items := k.items ++ [s.item a] } := by
+  obtain ⟨h', e, hab⟩ := C16_heap_add s l k a ha ha0 hv
+  exact ⟨h', by rw [src_add, e]; rfl, hab⟩
+
+/-- `jwks_item_free` as translated -/
+theorem C16_src_free (s : HSet) (l : List Addr) (k : KeySet) (fuel i : Nat) (ha : Abs s l k) (hf : l.length < fuel) :
+    ∃ h', Src.jwks_item_free s.heap s.head false i fuel = some (h', (k.free i).2) ∧
+      Abs { s with heap := h' } (l.eraseIdx i) (k.free i).1 ∧
+      (∀ a, a ∈ l[i]? → h'.valid a = false) ∧ (∀ a, a ∉ l[i]? → h'.valid a = s.heap.valid a) := by
+  rw [src_free]; exact C16_heap_free s l k fuel i ha hf
+
+/-- `jwks_item_free_bad` as translated -/
+theorem C16_src_free_bad (s : HSet) (l : List Addr) (k : KeySet) (fuel : Nat) (ha : Abs s l k) (hf : l.length < fuel) :
+    ∃ h', Src.jwks_item_free_bad s.heap s.view s.head fuel = some (h', k.freeBad.2) ∧
+      Abs { s with heap := h' } (l.filter (fun a => !(s.item a).error)) k.freeBad.1 ∧
+      (∀ a, a ∈ l → (s.item a).error = true → h'.valid a = false) := by
+  rw [src_free_bad]; exact C16_heap_free_bad s l k fuel ha hf
+
+/-- `jwks_item_free_all` as translated -/
+theorem C16_src_free_all (s : HSet) (l : List Addr) (k : KeySet) (fuel : Nat) (ha : Abs s l k) (hf : l.length < fuel) :
+    ∃ h', Src.jwks_item_free_all s.heap s.head false fuel = some (h', k.freeAll.2) ∧
+      Abs { s with heap := h' } [] k.freeAll.1 ∧ (∀ a ∈ l, h'.valid a = false) := by
+  rw [src_free_all]; exact C16_heap_free_all s l k fuel fuel ha hf hf
+
+-- the translated functions on a concrete heap: head at 1, items at 10 (good), 20 (errored), 30 (good, kid "k")
+example : (hrun demoItem 1 8 demoHeap [.add 10, .add 20, .add 30]).bind (fun h => Src.jwks_item_count h 1 8) = some 3 := by decide +kernel
+example : (hrun demoItem 1 8 demoHeap [.add 10, .add 20, .add 30]).bind (fun h => Src.jwks_item_get h 1 1 8) = some (some 20) := by decide +kernel
+example : (hrun demoItem 1 8 demoHeap [.add 10, .add 20, .add 30]).bind (fun h => Src.jwks_item_get h 1 3 8) = some none := by decide +kernel
+example : ((hrun demoItem 1 8 demoHeap [.add 10, .add 20, .add 30]).bind (fun h => Src.jwks_item_free_bad h (fun a => { error := (demoItem a).error, kid := (demoItem a).kid }) 1 8)).map (·.2)
+    = ((krun demoItem {} [.add 10, .add 20, .add 30]).freeBad).2 := by decide +kernel
 
 end Jwt.Props.C16
